@@ -18,7 +18,10 @@ import (
 	"github.com/jech/storrent/zzverif/vh"
 )
 
+// (BothMapOrders: the world is explored twice, with the scheduler's map range
+// loops in ascending and in descending key order)
 type bfsSpec struct {
+	BothMapOrders bool
 	Name     string
 	Cfg      worldCfg
 	Setup    []string
@@ -356,6 +359,17 @@ func runSpecs(t *testing.T, main string, specs []*bfsSpec) {
 	if os.Getenv("VERIF_OUT") == "" && vh.ReplayFile() == "" {
 		t.Skip("verif harness: run through /verif/run")
 	}
+	var expanded []*bfsSpec
+	for _, s := range specs {
+		expanded = append(expanded, s)
+		if s.BothMapOrders {
+			d := *s
+			d.Name += "-mapdesc"
+			d.Cfg.MapDesc = true
+			expanded = append(expanded, &d)
+		}
+	}
+	specs = expanded
 	res := map[string]*vh.Result{}
 	for _, id := range []string{"C01", "C03", "C05", "C09", "C10", "C11", "C12", "C16", "C17"} {
 		res[id] = vh.NewResult(id)
